@@ -44,9 +44,9 @@ let class_name = function
 let b2i b = if b then 1 else 0
 
 let print_block buf seqs (b : btrace) =
-  Buffer.add_string buf (Printf.sprintf "%d/%d/%d/%d/%d/%d/%d/%d" (int_of_n b.bt_type) (b2i b.bt_last)
+  Buffer.add_string buf (Printf.sprintf "%d/%d/%d/%d/%d/%d/%d/%d/%d/%d" (int_of_n b.bt_type) (b2i b.bt_last)
     (int_of_n b.bt_csize) (int_of_n b.bt_rsize) (int_of_n b.bt_litmode) (int_of_n b.bt_litsize)
-    (int_of_n b.bt_seqmodes) (List.length b.bt_seqs));
+    (int_of_n b.bt_seqmodes) (List.length b.bt_seqs) (int_of_n b.bt_nbseq_bytes) (int_of_n b.bt_lasttable));
   if seqs then begin
     Buffer.add_char buf '(';
     List.iter (fun s -> Buffer.add_string buf (Printf.sprintf "%d:%d:%d:%d," (int_of_n s.s_ll) (int_of_n s.s_ml) (int_of_n s.s_off) (int_of_n s.s_ofcode))) b.bt_seqs;
